@@ -47,6 +47,20 @@ def run (case impl : String) : String :=
     | .error .parse => "err parse"
     | .error .zeroShards => "err zeroShards"
     | .error .shardOutOfRange => "err shardOutOfRange"
-  | _, _ => "bad-case"
+  | _, _ =>
+    match words case with
+    | ["shardopts", a, b, c] =>
+      -- an entry is `-` (key absent), `e` (empty value list), a decimal number, or any other word (not a number)
+      let entry (w : String) : Entry :=
+        if w == "-" then .absent else if w == "e" then .empty else .val w.toNat?
+      match parseShardOptions (entry a) (entry b) (entry c) with
+      | .ok si => s!"ok {si.shard} {si.nrShards} {si.msbIgnore}"
+      | .error .noShardInfo => "err noShardInfo"
+      | .error .missingSome => "err missingSome"
+      | .error .missingValues => "err missingValues"
+      | .error (.info .parse) => "err parse"
+      | .error (.info .zeroShards) => "err zeroShards"
+      | .error (.info .shardOutOfRange) => "err shardOutOfRange"
+    | _ => "bad-case"
 
 end ScyllaVerif.Drive.C11
